@@ -147,8 +147,9 @@ def explore(ctx):
         if p['kind'] not in ('rows', 'table'):
             second.append(None)
             continue
-        if p['kind'] == 'table' and any(v is None for row in p['rows'] for v in row.values()):
-            # -o json prints a missing cell and a null cell alike: the round trip would be lossy
+        if any(v is None for row in p['rows'] for v in row.values()):
+            # -o json prints a missing cell, a null cell and a non-finite number (NaN, inf) alike, as null:
+            # re-feeding such output would not be the same rows
             second.append(None)
             continue
         pre_kind[len(second)] = p['kind']
